@@ -79,6 +79,7 @@ RECURSIVE EvalGroup(_, _, _)
 RECURSIVE EvalElts(_, _, _, _, _)
 RECURSIVE EvalQuery(_, _)
 RECURSIVE FirstOk(_, _, _, _)
+RECURSIVE InList(_, _, _, _, _)
 
 EvalExpr(e, mu, c) ==
   CASE e.e = "var"   -> IF e.v \in DOMAIN mu THEN mu[e.v] ELSE Err
@@ -100,9 +101,16 @@ EvalExpr(e, mu, c) ==
     [] e.e = "sameterm"  -> LET x == EvalExpr(e.a, mu, c)  y == EvalExpr(e.b, mu, c) IN IF IsErr(x) \/ IsErr(y) THEN Err ELSE BoolV(x = y)
     [] e.e = "if"        -> LET x == EBV(EvalExpr(e.a, mu, c)) IN IF IsErr(x) THEN Err ELSE IF x.v THEN EvalExpr(e.b, mu, c) ELSE EvalExpr(e.c, mu, c)
     [] e.e = "coalesce"  -> FirstOk(e.args, 1, mu, c)
+    \* x IN (e1 .. en) is (x = e1) || .. || (x = en) with the three-valued ||; NOT IN is its negation (17.4.1.9 / 17.4.1.10)
+    [] e.e = "in"        -> LET x == EvalExpr(e.a, mu, c)
+                                r == InList(x, e.args, 1, mu, c)
+                            IN IF IsErr(x) THEN Err           \* 17.2: an operator applied to an unbound / erroring left-hand side is an error, also for the empty list
+                               ELSE IF e.neg THEN Not3(r) ELSE r
     \* EXISTS: the pattern with the current solution substituted = the pattern evaluated starting from that solution
     [] e.e = "exists"    -> BoolV(Len(EvalGroup(e.g, c, mu)) > 0)
     [] e.e = "notexists" -> BoolV(Len(EvalGroup(e.g, c, mu)) = 0)
+InList(x, args, i, mu, c) == IF i > Len(args) THEN FalseV
+                             ELSE Or3(TermEqV(x, EvalExpr(args[i], mu, c)), InList(x, args, i + 1, mu, c))
 FirstOk(args, i, mu, c) == IF i > Len(args) THEN Err
                            ELSE LET x == EvalExpr(args[i], mu, c) IN IF IsErr(x) THEN FirstOk(args, i + 1, mu, c) ELSE x
 Holds(e, mu, c) == LET x == EBV(EvalExpr(e, mu, c)) IN ~IsErr(x) /\ x.v       \* FILTER keeps mu iff EBV is true
